@@ -88,6 +88,11 @@ WOPNFile *WOPN_Init(uint16_t melodic_banks, uint16_t percussive_banks)
 
     file->banks_count_melodic = (melodic_banks != 0) ? melodic_banks : 1;
     file->banks_melodic = (WOPNBank*)calloc(file->banks_count_melodic, sizeof(WOPNBank));
+    if(!file->banks_melodic)
+    {
+        WOPN_Free(file);
+        return NULL;
+    }
 
     if(melodic_banks == 0)
     {
@@ -98,6 +103,12 @@ WOPNFile *WOPN_Init(uint16_t melodic_banks, uint16_t percussive_banks)
 
     file->banks_count_percussion = (percussive_banks != 0) ? percussive_banks : 1;
     file->banks_percussive = (WOPNBank*)calloc(file->banks_count_percussion, sizeof(WOPNBank));
+
+    if(!file->banks_percussive)
+    {
+        WOPN_Free(file);
+        return NULL;
+    }
 
     if(percussive_banks == 0)
     {
@@ -295,6 +306,16 @@ WOPNFile *WOPN_LoadBankFromMem(void *mem, size_t length, int *error)
         count_melodic_banks = toUint16BE(head);
         count_percussive_banks = toUint16BE(head + 2);
         GO_FORWARD(5);
+
+        {/* The data must be able to back the declared counts before anything is allocated for them */
+            size_t per_bank = (version >= 2) ? (size_t)(34 + WOPN_INST_SIZE_V2 * 128) : (size_t)(WOPN_INST_SIZE_V1 * 128);
+            size_t banks = (size_t)count_melodic_banks + (size_t)count_percussive_banks;
+            if(length / per_bank < banks)
+            {
+                SET_ERROR(WOPN_ERR_UNEXPECTED_ENDING);
+                return NULL;
+            }
+        }
 
         outFile = WOPN_Init(count_melodic_banks, count_percussive_banks);
         if(!outFile)
